@@ -114,6 +114,7 @@ pub trait FarmStaking:
     #[endpoint(mergeFarmTokens)]
     fn merge_farm_tokens_endpoint(&self) -> DoubleMultiPayment<Self::Api> {
         let caller = self.blockchain().get_caller();
+        self.validate_contract_state(self.state().get(), &self.farm_token().get_token_id());
         self.migrate_old_farm_positions(&caller);
 
         let boosted_rewards = self.claim_only_boosted_payment(&caller);
